@@ -39,6 +39,10 @@ def parent_is_dir(kind, p):
     return kind[dirname(p)] == K_DIR
 
 
+def kind_absent(kind, p):
+    return kind[p] == K_ABSENT
+
+
 FILE_TEXT = z3.Function('file_text', ObjS, BoolS)
 IS_ASCII = z3.Function('is_ascii', StrS, BoolS)
 
@@ -509,8 +513,20 @@ class FsIntrinsics(Intrinsics):
         s2.assume(kind[p] == K_ABSENT)
         if eng.feasible(s2):
             outs.append((s2, Raise(new_exc('FileNotFoundError', 'os'))))
+        outs.extend(self.below_a_file(eng, st, p, node))
         outs.extend(self.may_fail(eng, st, node))
         return outs
+
+    def below_a_file(self, eng, st, p, node):
+        """ENOTDIR: a component of the path is a regular file (so the path itself is absent)"""
+        s = st.fork()
+        a = fresh('file_above', StrS)
+        s.assume(z3.And(kind_absent(self.kind(eng, s), p), anc(a, p), a != p,
+                        self.kind(eng, s)[a] == K_FILE))
+        if eng.feasible(s):
+            s.trace.append('enotdir%d' % node.lineno)
+            return [(s, Raise(new_exc('NotADirectoryError', 'os')))]
+        return []
 
     def i_stat_S_ISDIR(self, eng, st, f, pos, kws, node):
         mode = pos[0]
@@ -575,6 +591,7 @@ class FsIntrinsics(Intrinsics):
         s3.assume(kind[p] == K_DIR)
         if eng.feasible(s3):
             outs.append((s3, Raise(new_exc('IsADirectoryError', 'os'))))
+        outs.extend(self.below_a_file(eng, st, p, node))
         outs.extend(self.may_fail(eng, st, node))
         return outs
 
